@@ -145,7 +145,7 @@ m = {"version": 1,
  "hooks": {"guard": "EYECITE_VERIF", "enable": "EYECITE_VERIF=1 in the environment of the /venv/bin/python processes that import eyecite from /repo (python: nothing to build; each check starts fresh interpreters on /repo's working tree). The guard is OFF for every driver process except the step-level conformance driver of C02/C17 (harness/chk_extract.py passes EYECITE_VERIF=1 to drv_extract.run_steps). With the guard on, eyecite/_verif.py buffers one event per helpers.match_on_tokens call (window, match span, group spans); only the step-level conformance layer of C02/C17 (Trace_ExtractSteps.tla) reads them, every other check observes the public API only",
            "baseline_off_cmd": "cd /repo && /venv/bin/python -m pytest -ra -q -p no:cacheprovider --timeout=900 --continue-on-collection-errors",
            "source_commits": ["1dbaf419783e7d32b0b3dd56df357ba6ce7e4931", "224c6d48a12559d46741fa2c5248ecc0ad128192"], "add_only": True},
- "engines": [{"name": "resolve", "path": "spec/Resolve.tla spec/MC_Resolve.tla spec/Trace_Resolve.tla harness/chk_resolve.py harness/drv_resolve.py",
+ "engines": [{"name": "resolve", "path": "spec/Resolve.tla spec/MC_Resolve.tla spec/Trace_Resolve.tla spec/ResolveGeneric.tla spec/MC_ResolveGeneric.tla spec/Trace_ResolveGeneric.tla spec/Hits.tla harness/chk_resolve.py harness/drv_resolve.py",
               "serves_properties": ["C06", "C07", "C08"], "kind_free_text": "TLA+ spec, TLC model checking, transition replay, TLC trace validation"},
              {"name": "tokenize", "path": "spec/Tokenize.tla spec/MC_Tokenize.tla spec/Trace_Tokenize.tla harness/chk_tokenize.py harness/drv_tokenize.py harness/gendocs.py",
               "serves_properties": ["C12"], "kind_free_text": "TLA+ spec, TLC model checking, configuration replay, TLC trace validation"},
